@@ -12,7 +12,8 @@ K = 32
 
 
 def contracts(tier):
-    return [dict(file="c17_proxy.py", timeout=40 if tier == "quick" else 200)]
+    return [dict(file="c17_proxy.py", timeout=40 if tier == "quick" else 200),
+            dict(file="c17_attrs.py", timeout=60 if tier == "quick" else 200)]
 
 
 def enumerations(tier):
